@@ -9,6 +9,7 @@ R-COUNTATTR  updatemeta sets NLAYS/NCOLS/NROWS from the dimension lengths and ma
 R-VARLISTWIDTH every decode of the fixed-width VAR-LIST attribute cuts 16-character fields.
 """
 import ast
+import re
 
 from ..engine import AnalysisError, dotted, iter_stmts, norm, walk_expr, const_str, kw
 from ..flow import Walker
@@ -365,6 +366,88 @@ def check_tflag_unlisted(ctx, rule='R-TFLAGUNLISTED'):
                     ctx.violation(Finding(rule, IO, cq, c, '%s appends every name it is given, and this call does not exclude TFLAG / ETFLAG: copying or evaluating a time flag lists '
                                           'it in VAR-LIST and counts it in NVARS while the VAR dimension and TFLAG keep the number of data variables' % short))
     ctx.floor('VAR-LIST appending sites', n, 1)
+
+
+def check_flag_per_time(ctx, rule='R-FLAGPERTIME'):
+    """every time flag is encoded from its own time: in a comprehension over the decoded times an element never adds a part taken
+    from the first time (a year hoisted out of the loop stamps the steps after 31 December with the old year)"""
+    ctx.rule(rule, 'time flags are encoded per time: no element of a comprehension over the times mixes in a part computed from times[0]')
+    n = 0
+    for rp in (IO, 'conventions/ioapi/_ioapi.py'):
+        m = ctx.src.mod(rp)
+        for q, fn in sorted(m.functions.items()):
+            first = {}
+            for st in iter_stmts(fn.body):
+                if isinstance(st, ast.Assign) and len(st.targets) == 1 and isinstance(st.targets[0], ast.Name) and re.search(r"\b\w*times?\[0\]", norm(st.value)) \
+                        and 'strftime' in norm(st.value):
+                    first[st.targets[0].id] = st
+            for comp in (x for st in iter_stmts(fn.body) for x in walk_expr(st) if isinstance(x, (ast.ListComp, ast.GeneratorExp))):
+                g = comp.generators[0]
+                if not (isinstance(g.target, ast.Name) and 'time' in norm(g.iter).lower() and 'strftime' in norm(comp.elt)):
+                    continue
+                n += 1
+                mixed = [x.id for x in ast.walk(comp.elt) if isinstance(x, ast.Name) and x.id in first]
+                where = 'src/PseudoNetCDF/%s %s' % (rp, q)
+                if mixed:
+                    from .. import api as _api2
+                    ctx.violation(Finding(rule, rp, q, _api2.stmt_of(comp), 'each element combines a part of its own time with %s, which was computed from the first time (%s): for a series that '
+                                          'crosses 31 December the later flags carry the old year' % (mixed[0], norm(first[mixed[0]])[:50])))
+                else:
+                    ctx.ok(rule, '%s:%s' % (q, norm(comp)[:40]), where, 'element built from the loop variable only')
+    ctx.floor('comprehensions that encode time flags', n, 4)
+
+
+def check_sortmeta_count(ctx, rule='R-COUNTATTR'):
+    """ioapi_sort_meta: NVARS counts the names of VAR-LIST (the list decoded from the attribute), not every variable of the file"""
+    fn = ctx.src.mod(IO).functions.get('ioapi_sort_meta')
+    where = 'src/PseudoNetCDF/%s ioapi_sort_meta' % IO
+    if fn is None:
+        return
+    listed = set()
+    for st in iter_stmts(fn.body):
+        if isinstance(st, ast.Assign) and len(st.targets) == 1 and isinstance(st.targets[0], ast.Name) and 'VAR-LIST' in norm(st.value):
+            listed.add(st.targets[0].id)
+    for st in iter_stmts(fn.body):
+        if isinstance(st, ast.Assign) and any(isinstance(t, ast.Attribute) and t.attr == 'NVARS' for t in st.targets):
+            v = st.value
+            if isinstance(v, ast.Call) and dotted(v.func) == 'len' and v.args and isinstance(v.args[0], ast.Name):
+                if v.args[0].id in listed:
+                    ctx.ok(rule, 'ioapi_sort_meta:NVARS', where, 'NVARS = len(%s), the names decoded from VAR-LIST' % v.args[0].id)
+                else:
+                    ctx.violation(Finding(rule, IO, 'ioapi_sort_meta', st, 'NVARS is the length of %s, not of the list decoded from VAR-LIST (%s): with a variable that is not listed (a 2-D mask) NVARS and the '
+                                          'rebuilt VAR dimension exceed the number of names in VAR-LIST and the second axis of TFLAG' % (v.args[0].id, sorted(listed))))
+            else:
+                ctx.undec(rule, 'ioapi_sort_meta:NVARS', where, 'NVARS is not len(<name>)')
+
+
+def check_cf_start(ctx, rule='R-STARTSET'):
+    """add_ioapi_from_cf: SDATE / STIME are the date and time of the first record - the element [0] of the arrays that fill the two
+    TFLAG columns - not independent extremes of the two columns"""
+    rp = 'conventions/ioapi/_ioapi.py'
+    fn = ctx.src.mod(rp).functions.get('add_ioapi_from_cf')
+    where = 'src/PseudoNetCDF/%s add_ioapi_from_cf' % rp
+    if fn is None:
+        return
+    cols = {}
+    for st in iter_stmts(fn.body):
+        if isinstance(st, ast.Assign) and isinstance(st.targets[0], ast.Subscript) and isinstance(st.targets[0].slice, ast.Tuple) and len(st.targets[0].slice.elts) == 3 \
+                and isinstance(st.targets[0].slice.elts[2], ast.Constant) and 'tflag' in norm(st.targets[0].value).lower():
+            names = [x.id for x in ast.walk(st.value) if isinstance(x, ast.Name)]
+            if names:
+                cols[st.targets[0].slice.elts[2].value] = names[0]
+    for attr, col in (('SDATE', 0), ('STIME', 1)):
+        for st in iter_stmts(fn.body):
+            if isinstance(st, ast.Expr) and isinstance(st.value, ast.Call) and dotted(st.value.func) == 'setattr' and len(st.value.args) == 3 and const_str(st.value.args[1]) == attr:
+                v = st.value.args[2]
+                want = cols.get(col)
+                if want is None:
+                    ctx.undec(rule, 'add_ioapi_from_cf:' + attr, where, 'TFLAG column %d source not found' % col)
+                elif isinstance(v, ast.Subscript) and norm(v.value) == want and isinstance(v.slice, ast.Constant) and v.slice.value == 0:
+                    ctx.ok(rule, 'add_ioapi_from_cf:' + attr, where, '%s = %s[0], the array that fills TFLAG[:, :, %d]' % (attr, want, col))
+                else:
+                    ctx.violation(Finding(rule, rp, 'add_ioapi_from_cf', st, '%s is %s, not the first element of %s (which fills TFLAG[:, :, %d]): date and time of day are then taken from '
+                                          'different records, and %s differs from the first time flag of a series that does not start at its smallest %s' % (
+                                              attr, norm(v)[:40], want, col, attr, 'time of day' if col else 'date')))
 
 
 def check_start_sync(ctx, rule='R-STARTSYNC'):
@@ -961,6 +1044,9 @@ def run(ctx):
         ctx.violation(Finding('R-TFLAGRESTORE', IO, 'ioapi_base.createVariable', cvf.body[-1], 'TFLAG can be created with a fill value: mask(coords=True) then masks time flags, and the masked/filled flags are decoded as times'), oid='createVariable')
     check_varlist_width(ctx)
     check_tflag_unlisted(ctx)
+    check_flag_per_time(ctx)
+    check_sortmeta_count(ctx)
+    check_cf_start(ctx)
     check_start_sync(ctx)
     check_dim_reset(ctx)
     check_time_reduce(ctx)
